@@ -13,6 +13,9 @@
 (***************************************************************************)
 EXTENDS Pool, Json, IOUtils
 
+CONSTANT Markers    \* TRUE: the hook-point events of the trace are matched; FALSE: they were removed from the trace and
+                    \* the hook points are passed silently (only what the tasks and the caller of run() observe is matched)
+
 Rec == ndJsonDeserialize(IOEnv.TRACE)
 
 VARIABLES l, got, dropreq
@@ -131,6 +134,9 @@ SilentWorker(w) ==
           \/ WPop(w) \/ WPopped(w) \/ WSchedChk(w) \/ WArTry(w) \/ WArBegin(w) \/ WArUnpark(w) \/ WHandOver(w)
           \/ WRegPanic(w) \/ WPActAll(w) \/ WPUnpark(w) \/ WExit(w)
        /\ UNCHANGED got
+    \/ /\ ~Markers
+       /\ WPoint(w)
+       /\ UNCHANGED got
     \/ /\ WPollBegin(w)
        /\ got' = [got EXCEPT ![w] = 0]
     \/ /\ got[w] = wl[w].ei + 1
@@ -140,6 +146,7 @@ SilentWorker(w) ==
 SilentMain ==
     \/ MNewPark \/ MArTry \/ MArBegin \/ MArUnpark \/ MLoop \/ MRead \/ MPark \/ MJoined
     \/ (dropreq /\ MDrop)
+    \/ (~Markers /\ MPoint)
 
 Silent ==
     /\ l <= Len(Rec)
